@@ -489,9 +489,12 @@ impl ArtefactMedium {
                 let mut s = String::from("m");
                 for _ in 0..n {
                     s.push('/');
-                    s.push_str(&format!("{}", match rng.below(4) {
-                        0 => 0,
+                    s.push_str(&format!("{}", match rng.below(8) {
+                        0 => 0u64,
                         1 => 0x7fff_ffff,
+                        2 => 0x8000_0000,
+                        3 => 0xffff_ffff,
+                        4 => 0x1_0000_0000,
                         _ => rng.below(1000),
                     }));
                     if hard && rng.chance(1, 3) {
@@ -638,6 +641,85 @@ fn apply_fault(data: &mut Vec<u8>, f: &Value) -> bool {
             *data = jhex(f, "junk");
             true
         }
+        "json_value" => {
+            // replace the k-th JSON value (the token after a ':' outside strings) by another JSON value
+            let k = jusize(f, "k");
+            let with = jstr(f, "with").as_bytes().to_vec();
+            let mut in_str = false;
+            let mut esc = false;
+            let mut seen = 0usize;
+            let mut i = 0usize;
+            while i < data.len() {
+                let c = data[i];
+                if in_str {
+                    if esc {
+                        esc = false;
+                    } else if c == b'\\' {
+                        esc = true;
+                    } else if c == b'"' {
+                        in_str = false;
+                    }
+                } else if c == b'"' {
+                    in_str = true;
+                } else if c == b':' {
+                    if seen == k {
+                        // value runs to the next ',' '}' or ']' at this nesting level (strings respected)
+                        let start = i + 1;
+                        let mut j = start;
+                        let mut depth = 0i32;
+                        let mut s_in = false;
+                        let mut s_esc = false;
+                        while j < data.len() {
+                            let d = data[j];
+                            if s_in {
+                                if s_esc {
+                                    s_esc = false;
+                                } else if d == b'\\' {
+                                    s_esc = true;
+                                } else if d == b'"' {
+                                    s_in = false;
+                                }
+                            } else if d == b'"' {
+                                s_in = true;
+                            } else if d == b'{' || d == b'[' {
+                                depth += 1;
+                            } else if d == b'}' || d == b']' {
+                                if depth == 0 {
+                                    break;
+                                }
+                                depth -= 1;
+                            } else if d == b',' && depth == 0 {
+                                break;
+                            }
+                            j += 1;
+                        }
+                        data.splice(start..j, with);
+                        return true;
+                    }
+                    seen += 1;
+                }
+                i += 1;
+            }
+            false
+        }
+        "token" => {
+            // replace / insert one whitespace-separated token of a text artefact
+            let k = jusize(f, "k");
+            let with = jstr(f, "with").to_string();
+            let text = String::from_utf8_lossy(data).to_string();
+            let mut toks: Vec<String> = text.split(' ').map(|t| t.to_string()).collect();
+            if toks.is_empty() {
+                return false;
+            }
+            let pos = k % toks.len();
+            if jbool(f, "insert") {
+                toks.insert(pos, with);
+            } else {
+                toks[pos] = with;
+            }
+            *data = toks.join(" ").into_bytes();
+            true
+        }
         "nest" => {
             // n x OP_IF ... n x OP_ENDIF around the artefact (recursion probe)
             let n = jusize(f, "n");
@@ -656,12 +738,12 @@ impl Scenario for ArtefactMedium {
         ScenarioInfo {
             property: "C09",
             name: "artefact-medium",
-            rule: "one case = one valid artefact produced by the real encoder for one of 55 decoder kinds, 0-3 medium faults (truncate at an offset, bit flip, byte set, length-field inflation with 28 compact-size / PUSHDATA / CBOR-head patterns at located length offsets or seeded offsets, junk extension/prepend, splice, duplication, emptying, random replacement, conditional nesting), optional misdelivery to another decoder, then the real decode call under an allocator budget of 1024*len+1MiB in a worker whose death is attributed by breadcrumb; non-trivial = at least one fault or misdelivery fired; distinct = distinct (stored kind, consuming decoder, fault kinds and parameters classes, outcome) fingerprint",
+            rule: "one case = one valid artefact produced by the real encoder for one of 55 decoder kinds, 0-3 medium faults (truncate at an offset, bit flip, byte set, length-field inflation with 39 compact-size / PUSHDATA / CBOR-head patterns, JSON value substitution, text token substitution/insertion at located length offsets or seeded offsets, junk extension/prepend, splice, duplication, emptying, random replacement, conditional nesting), optional misdelivery to another decoder, then the real decode call under an allocator budget of 1024*len+1MiB in a worker whose death is attributed by breadcrumb; non-trivial = at least one fault or misdelivery fired; distinct = distinct (stored kind, consuming decoder, fault kinds and parameters classes, outcome) fingerprint",
             abstract_state: "(consuming decoder, fault-kind set, outcome ok/err)",
             real: &["55 public decoding entry points of bsv (Transaction/TxIn/TxOut wire+hex+CBOR+JSON, Script bytes/hex/asm/chunks, ScriptTemplate, PrivateKey WIF/hex/bytes, PublicKey, ExtendedPrivateKey/ExtendedPublicKey strings, paths, seeds, P2PKHAddress, Signature DER/compact, SighashSignature, ECIESCiphertext+decrypt, AES key/iv/ciphertext, digest-taking ECDSA entry points, serde JSON of TxIn/TxOut/Script/PublicKey/P2PKHAddress, BSM verify)", "the real encoders as producers", "the process heap through a counting allocator that refuses over-budget requests", "process death (SIGABRT/SIGSEGV/SIGALRM) observed by the parent"],
             stub: &["the medium (byte-level fault plan)"],
             assumptions: &["alpha=1024, beta=1MiB: calibrated as 4x the largest fault-free peak/len ratio observed (wire decode of dense one-byte-opcode scripts ~185x); the fault-free ratio histogram is written to evidence on every run", "text decoders receive String::from_utf8_lossy of the damaged bytes (Rust strings are valid UTF-8 by construction)", "overflow-checks are on, as in the repository's own test profile"],
-            required_probes: &["fault:truncate", "fault:inflate", "fault:flip", "misdelivered", "decode_ok", "decode_err", "fault_free_decode"],
+            required_probes: &["fault:truncate", "fault:inflate", "fault:flip", "fault:json_value", "fault:token", "misdelivered", "decode_ok", "decode_err", "fault_free_decode"],
             quick_runs: 300000,
             thorough_runs: 12000000,
             rlimit_as: 8 << 30,
@@ -691,10 +773,16 @@ impl Scenario for ArtefactMedium {
         let n_faults = rng.weighted(&[10, 50, 25, 15]);
         for _ in 0..n_faults {
             let big = if tier == Tier::Thorough && rng.chance(1, 50) { 200_000 } else { 3000 };
-            let f = match rng.weighted(&[22, 10, 6, 26, 8, 3, 6, 2, 3, 4, 3]) {
+            let json_kind = kind.starts_with("json_") || kind == "tx_json";
+            let token_kind = matches!(kind, "script_asm" | "template_asm" | "xprv_path" | "xpub_path");
+            let f = if json_kind && rng.chance(1, 2) {
+                json!({"f": "json_value", "k": rng.below(12), "with": *rng.pick(&["1", "-1", "0", "1e400", "18446744073709551616", "4294967296", "null", "true", "[]", "{}", "\"\"", "\"zz\"", "\"00\"", "[1,2,3]", "{\"a\":1}", "1.5", "\"\u{e9}\u{20ac}\"", "99999999999999999999999999999999999999"])})
+            } else if token_kind && rng.chance(1, 2) {
+                json!({"f": "token", "k": rng.below(16), "insert": rng.chance(1, 2), "with": *rng.pick(&["", "", "OP_PUSH", "OP_PUSHDATA1", "OP_PUSHDATA2", "OP_PUSHDATA4", "OP_PUSH 4294967295 00", "OP_PUSHDATA4 4294967296 00", "OP_DATA=4294967296", "OP_DATA>=18446744073709551616", "OP_DATA<", "OP_DATA=", "OP_DATA=-1", "OP_DATA>", "0x", "zz", "é€", "a€", "OP_é", "17", "-1", "2147483648", "2147483647'", "4294967295", "4294967296", "2147483648h", "99999999999999999999", "'", "h", "/", "m", "m/", "0''", "OP_IF", "OP_ENDIF", "OP_ELSE", "\n", "\r", "\t"])})
+            } else { match rng.weighted(&[22, 10, 6, 26, 8, 3, 6, 2, 3, 4, 3]) {
                 0 => json!({"f": "truncate", "k": if len > 0 { rng.usize(len) } else { 0 }}),
                 1 => json!({"f": "flip", "pos": if len > 0 { rng.usize(len) } else { 0 }, "bit": rng.below(8)}),
-                2 => json!({"f": "set", "pos": if len > 0 { rng.usize(len) } else { 0 }, "val": *rng.pick(&[0u64, 0xff, 0xfd, 0xfe, 0x4c, 0x4d, 0x4e, 0x63, 0x68, 0x80, 0x7f])}),
+                2 => json!({"f": "set", "pos": if len > 0 { rng.usize(len) } else { 0 }, "val": *rng.pick(&[0u64, 0xff, 0xfd, 0xfe, 0x4c, 0x4d, 0x4e, 0x63, 0x68, 0x80, 0x7f, 0x20, 0x20, 0x2f, 0x27, 0x30, 0x39, 0x68, 0x6d, 0x3d, 0x3e, 0x3c, 0x22, 0x7b, 0x5b, 0x2c, 0x3a, 0x2d, 0xc3, 0xe2])}),
                 3 => {
                     if !cbor_heads.is_empty() && rng.chance(3, 4) {
                         // replace one CBOR head by another head (any major type) that declares an extreme length
@@ -721,7 +809,7 @@ impl Scenario for ArtefactMedium {
                     json!({"f": "random", "junk": hx(&rng.bytes(n))})
                 }
                 _ => json!({"f": "nest", "n": if rng.chance(1, 4) { rng.range(1000, big) } else { rng.range(1, 40) }}),
-            };
+            } };
             // track length roughly for later offsets
             let mut tmp = vec![0u8; len];
             apply_fault(&mut tmp, &f);
